@@ -5,7 +5,7 @@
 set -u
 export GOFLAGS=-mod=mod GOPROXY=off GOSUMDB=off GOTOOLCHAIN=local
 id=$1; k=$2; dest=$3; pkg=$4; rx=$5; tier=${6:-quick}
-lc=$(echo $id | tr A-Z a-z); wt=/tmp/seed-$lc; out=/tmp/seed-$lc-out
+lc=$(echo $id | tr A-Z a-z); wt=/tmp/seed-$lc; out=${SEED_OUT:-/tmp/seed-$lc-out}
 cd $wt || exit 2
 git checkout -q -- . ; git clean -fdq
 demo_files=$(cd $out/demo$k && find . -type f -name '*.go')
